@@ -51,6 +51,7 @@ type PDag struct {
 	Steps    []PStep           `json:"steps"`
 	Handlers map[string]*PStep `json:"handlers"`
 	NConds   int               `json:"nconds"`
+	Ptrs     map[string]bool   `json:"ptrs"` // pointer fields the runner dereferences: is each non-nil?
 	JSONOk   bool              `json:"json_ok"`
 	JSONErr  string            `json:"json_err,omitempty"`
 	Conds    []CondRes         `json:"conds"`
@@ -233,6 +234,7 @@ func exprs(ss []dag.Schedule) []string {
 func projectDag(d *dag.DAG) *PDag {
 	p := &PDag{Name: d.Name, Tags: nz(d.Tags), LogDir: d.LogDir, DParams: d.DefaultParams, Params: nz(d.Params),
 		Handlers: map[string]*PStep{}, NConds: len(d.Preconditions), Steps: []PStep{}, Conds: []CondRes{}}
+	p.Ptrs = map[string]bool{"smtp": d.SMTP != nil, "errorMail": d.ErrorMail != nil, "infoMail": d.InfoMail != nil}
 	p.Sched = [3][]string{exprs(d.Schedule), exprs(d.StopSchedule), exprs(d.RestartSchedule)}
 	env := append([]string{}, d.Env...)
 	sort.Strings(env)
